@@ -266,6 +266,12 @@ fn port_events(cx: &mut Ctx, c: &Call, s: &str) {
         for p in [lo, hi] {
             inc_event(cx, Some(p), c.src);
         }
+        // what `antctl add` does next with an accepted range: every port of it is compared with the recorded ones
+        if (hi as u32) - (lo as u32).min(hi as u32) < 70_000 {
+            let a = guarded(|| ant_node_manager::helpers::check_port_availability(&range, &[]));
+            let out = match &a { Ok(Ok(())) => "ok", Ok(Err(_)) => "err", Err(_) => "panic" };
+            cx.t.emit(json!({"ev": "Avail", "src": c.src, "single": single, "lo": lo, "hi": hi, "out": out, "msg": msg_of(&a)}));
+        }
     }
 }
 fn inc_event(cx: &mut Ctx, p: Option<u16>, src: &str) {
